@@ -57,7 +57,12 @@ where
     let mut accumulated_slack = Probability::zero();
 
     Ok(probabilities.iter().map(move |probability_float| {
-        let left_cumulative = (cumulative_float * scale).as_() + accumulated_slack;
+        // Rounding errors in the floating point arithmetic (in particular if `F` cannot
+        // represent `free_weight` exactly) must not push the scaled cumulative beyond
+        // `free_weight`, or else trailing symbols would end up with zero probability (or the
+        // cumulative distribution function would wrap around).
+        let scaled_cumulative: Probability = (cumulative_float * scale).as_();
+        let left_cumulative = scaled_cumulative.min(free_weight) + accumulated_slack;
         cumulative_float = cumulative_float + *probability_float;
         accumulated_slack = accumulated_slack.wrapping_add(&Probability::one());
         left_cumulative
